@@ -5,6 +5,7 @@
  *   MODE 1  bounded history from reset: K symbolic operations vs. model (also shows which states are reachable)
  *   MODE 2  fairness/liveness: arbitrary state, a chosen pending request of level L, nothing deliverable above L:
  *           it is dequeued within 2*Size(L) dequeues while confirmations keep arriving
+ *   MODE 3  the same while a producer re-queues other characteristics of the same or a lower level between the dequeues
  */
 #include "vf.h"
 
@@ -149,7 +150,7 @@ void harness(void)
     for (int l = 0; l < NLEVELS[cfg]; ++l) total += SIZES[cfg][l];
     outstanding = NONE;
 
-    if (mode == 0 || mode == 2) {
+    if (mode == 0 || mode == 2 || mode == 3) {
         /* arbitrary representable state */
         for (int g = 0; g < total; ++g) { pn[g] = in_bool(); pi[g] = in_bool(); }
         int has_out = in_bool();
@@ -171,6 +172,30 @@ void harness(void)
             do_op(op, i);
         }
         check_state();
+    } else if (mode == 3) {
+        /* fairness inside one level against a producer that keeps re-queueing OTHER characteristics of the same (or a lower)
+           priority level between the dequeues: a pending request must still be served within two rounds of its level, i.e. no
+           other characteristic can be served over and over in front of it */
+        int g = (int)in_range(0, total - 1);
+        int want_ind = in_bool();
+        int adv_do[2 * MAXN], adv_kind[2 * MAXN]; unsigned long adv_idx[2 * MAXN];
+        for (int s = 0; s < 2 * MAXN; ++s) { adv_do[s] = in_bool(); adv_kind[s] = in_bool(); adv_idx[s] = (unsigned long)in_range(0, total - 1); }
+        int off, l = level_of(g, &off);
+        ASSUME(want_ind ? pi[g] : pn[g]);
+        ASSUME(outstanding == NONE);
+        for (int h = 0; h < off; ++h) ASSUME(!pn[h] && !pi[h]);      /* nothing pending at higher priority */
+        int served = 0;
+        int rounds = 2 * SIZES[cfg][l];
+        for (int s = 0; s < 2 * MAXN; ++s) {
+            if (s >= rounds) break;
+            if (adv_do[s] && adv_idx[s] != (unsigned long)g && adv_idx[s] >= (unsigned long)off) {
+                if (adv_kind[s]) vf_nq_queue_indication(cfg, adv_idx[s]); else vf_nq_queue_notification(cfg, adv_idx[s]);
+            }
+            unsigned long idx = 0; int kind = vf_nq_dequeue(cfg, &idx);
+            if (kind == 2) vf_nq_confirmed(cfg);                      /* confirmations keep arriving */
+            if (idx == (unsigned long)g && kind == (want_ind ? 2 : 1)) served = 1;
+        }
+        CHECK(served, "a pending request is dequeued within two rounds of its priority level even if other requests of that level are re-queued meanwhile");
     } else {
         /* fairness inside one level */
         int g = (int)in_range(0, total - 1);
